@@ -325,6 +325,8 @@ pub fn c16(tier: &str, seed: u64, meta: &str) -> Report {
                 let t = format!("{}{}{}", rng.pick(&["", "\"", "("][..]), prefix, rng.pick(&["", "\"", ")", "!"][..]));
                 let mut k = match fpr.keys_for(&t) { Some(k) => k, None => continue };
                 // now and then a letter from the AltGr plane of the layout (rare letters no dictionary word holds)
+                // ... or a joiner as the last character of the text (it is part of the text, also of the pre-edit text)
+                if rng.chance(1, 6) { if let Some(j) = fpr.keys_for(if rng.chance(1, 2) { "\u{200D}" } else { "\u{200C}" }) { k.extend(j); } }
                 if rng.chance(1, 5) { let alt: Vec<&(u16, u8, String)> = fpr.km.keys.iter().filter(|x| x.1 != 0).collect(); if !alt.is_empty() { let x = rng.pick(&alt); let at = rng.below(k.len() + 1); k.insert(at, SEv::Key(x.0, x.1, 0)); } }
                 k
             };
